@@ -222,13 +222,27 @@ def check_case(case):
             sp *= m
         return p[1]
 
+    def r_subpath_copy():   # the copying operator on a view of the SECOND sub-path
+        x = build(obj)
+        p = svg.Path(svg.Move(None, svg.Point(-3, -3)), svg.Line(svg.Point(-3, -3), svg.Point(-5, -4)), svg.Move(None, svg.Point(x.start)), x)
+        sp = p.subpath(1)
+        for m in ms:
+            q = sp * m
+            if q is sp:
+                raise AssertionError("* returned its operand")
+            sp = q
+        segs = list(sp)
+        if len(segs) != 2:
+            raise AssertionError("subpath(1) * M has %d segments, expected 2" % len(segs))
+        return segs[1]
+
     def r_string():       # X * "matrix(...)"
         x = build(obj)
         for M in hist:
             x = x * ("matrix(%s)" % ",".join(repr(float(rat(v))) for v in M))
         return x
     for name, fn in (("seg * M", r_mul), ("seg *= M", r_imul), ("seg * (A*B)", r_product), ("abs(path * M)[1]", r_path_abs),
-                     ("path *= M; reify", r_path_reify), ("subpath *= M", r_subpath), ("seg * 'matrix(..)'", r_string),
+                     ("path *= M; reify", r_path_reify), ("subpath *= M", r_subpath), ("subpath(1) * M", r_subpath_copy), ("seg * 'matrix(..)'", r_string),
                      ("incremental path *= M; reify", r_incremental), ("(path + path) *= M; reify", r_joined)):
         try:
             s = fn()
